@@ -142,6 +142,17 @@ def check_cdata(prog: Program, rep: Report) -> None:
             continue
         handle_aliases = {name for name, val in mi.assigns.items() if isinstance(val, ast.Attribute)
                           and norm(val) in ("ffi.new_handle", "ffi.gc", "ffi.new")}
+        # module-level functions that hand back cffi data (every return value is ffi.gc / ffi.new / ffi.new_handle of something,
+        # or the result of another such function)
+        producers: set = set()
+        for _ in range(3):
+            for fname, f in mi.functions.items():
+                rets = [r.value for r in ast.walk(f) if isinstance(r, ast.Return) and r.value is not None]
+                RFn = Resolver(f)
+                if rets and all(isinstance(RFn.res(v), ast.Call) and (norm(RFn.res(v).func) in ("ffi.gc", "ffi.new_handle", "ffi.new")
+                                                                      or norm(RFn.res(v).func) in handle_aliases | producers) for v in rets):
+                    producers.add(fname)
+        handle_aliases = handle_aliases | producers
         cattrs: Dict[str, ast.AST] = {}
         for m in [_cm(prog, ci, name) for name in ci.methods]:
             for a in ast.walk(m):
@@ -181,17 +192,52 @@ def check_payload(prog: Program, rep: Report) -> None:
     if res is None or not dumps:
         raise AnalysisError("dump / resume anchors not found")
     main = res.functions.get("main")
-    loads = [n for n in ast.walk(main) if isinstance(n, ast.Assign) and isinstance(n.value, ast.Call) and norm(n.value.func).endswith("dill.load")]
-    if len(dumps) != 1 or len(loads) != 1:
+
+    def load_sites(fn: ast.AST) -> List[ast.Assign]:
+        return [n for n in ast.walk(fn) if isinstance(n, ast.Assign) and isinstance(n.value, ast.Call) and norm(n.value.func).endswith("dill.load")]
+
+    def unpacked(fn: ast.AST, target: ast.AST) -> ast.AST:
+        """the tuple a name is unpacked into later in the same function (the name itself if it is not)"""
+        if isinstance(target, ast.Name):
+            unpack = [n for n in ast.walk(fn) if isinstance(n, ast.Assign) and isinstance(n.targets[0], (ast.Tuple, ast.List))
+                      and isinstance(n.value, ast.Name) and n.value.id == target.id]
+            if len(unpack) == 1:
+                return unpack[0].targets[0]
+        return target
+    loads = load_sites(main)
+    helper_loads = [(f, l) for f in res.functions.values() if f is not main for l in load_sites(f)]
+    if len(dumps) != 1 or len(loads) + len(helper_loads) != 1:
         raise AnalysisError("dill.dump / dill.load sites not unique")
     # the dumped object may be bound to a local before the dump, the loaded one before it is unpacked
     payload = Resolver(w).res(dumps[0].args[0])
-    target = loads[0].targets[0]
-    if isinstance(target, ast.Name):
-        unpack = [n for n in ast.walk(main) if isinstance(n, ast.Assign) and isinstance(n.targets[0], (ast.Tuple, ast.List))
-                  and isinstance(n.value, ast.Name) and n.value.id == target.id]
-        if len(unpack) == 1:
-            target = unpack[0].targets[0]
+    if loads:
+        target = unpacked(main, loads[0].targets[0])
+    else:
+        # the file is read by a module-level helper that hands the loaded items back: follow them through its return value to
+        # the place where the caller unpacks them
+        hf, hl = helper_loads[0]
+        loads = [hl]
+        inner = unpacked(hf, hl.targets[0])
+        rets = [r for r in ast.walk(hf) if isinstance(r, ast.Return) and r.value is not None]
+        calls = [n for n in ast.walk(main) if isinstance(n, ast.Assign) and isinstance(n.value, ast.Call) and norm(n.value.func) == hf.name]
+        target = None
+        if len(rets) == 1 and len(calls) == 1:
+            outer = unpacked(main, calls[0].targets[0])
+            rv = rets[0].value
+            if isinstance(rv, ast.Name) and isinstance(hl.targets[0], ast.Name) and rv.id == hl.targets[0].id:
+                target = outer                      # the loaded list itself is returned
+            elif isinstance(rv, ast.Tuple) and isinstance(inner, (ast.Tuple, ast.List)) and isinstance(outer, (ast.Tuple, ast.List)) \
+                    and len(rv.elts) == len(outer.elts):
+                inner_names = [norm(x) for x in inner.elts]
+                # position j of the caller's tuple receives item inner_names.index(returned name j) of the payload
+                order_ = [inner_names.index(norm(x)) if norm(x) in inner_names else None for x in rv.elts]
+                if None not in order_ and sorted(order_) == list(range(len(inner_names))):
+                    elts = [None] * len(order_)
+                    for j, i in enumerate(order_):
+                        elts[i] = outer.elts[j]
+                    target = ast.Tuple(elts=elts, ctx=ast.Store())
+        if target is None:
+            target = ast.Name(id="?", ctx=ast.Store())
     loc = Loc(res.file, loads[0].lineno, "resume.main")
     if not isinstance(payload, (ast.List, ast.Tuple)) or not isinstance(target, ast.Tuple):
         rep.ob("R19.3-payload-arity", None, loc, "payload", "payload / unpack idiom not recognised")
